@@ -132,7 +132,7 @@ MIsBranch(mn) == mn \in MBranches
 
 \* ---- registers -------------------------------------------------------------------------
 MR(st, r)     == IF r = 0 THEN Zero(32) ELSE st.gpr[r + 1]
-MW(st, r, v)  == IF r = 0 THEN st ELSE [st EXCEPT !.gpr[r + 1] = v]
+MW(st, r, v)  == IF r = 0 THEN st ELSE [st EXCEPT !.gpr[r + 1] = TLCEval(v)]   \* forced: see Isa!StoreBytes
 SImm(d)       == Sext(16, 32, d.imm)
 ZImm(d)       == Zext(32, d.imm)
 MEA(d, st)    == Add(32, MR(st, d.rs), SImm(d))
@@ -153,7 +153,7 @@ SwrWord(big, k, W, rt) == LET s == IF big THEN 8 * (3 - k) ELSE 8 * k IN
 Prod(signed, a, b) == IF signed THEN Mul(64, Sext(32, 64, a), Sext(32, 64, b))
                       ELSE Mul(64, Zext(64, a), Zext(64, b))
 Acc(st)            == Concat(32, st.hi, 32, st.lo)
-SetAcc(st, v)      == [st EXCEPT !.hi = Extract(64, v, 32, 32), !.lo = Trun(32, v)]
+SetAcc(st, v)      == [st EXCEPT !.hi = TLCEval(Extract(64, v, 32, 32)), !.lo = TLCEval(Trun(32, v))]
 
 \* ---- one non-branch instruction --------------------------------------------------------
 MLoad(d, st, big, n, signed) ==
@@ -205,9 +205,9 @@ MExec1(d, st, big) ==
     [] mn = "mult"  -> <<OkR(SetAcc(st, Prod(TRUE, rs, rt)))>>
     [] mn = "multu" -> <<OkR(SetAcc(st, Prod(FALSE, rs, rt)))>>
     [] mn = "div"   -> IF IsZero(rt) THEN <<UnspecR("division by zero (UNPREDICTABLE)")>>
-                       ELSE <<OkR([st EXCEPT !.lo = Divs(32, rs, rt), !.hi = Mods(32, rs, rt)])>>
+                       ELSE <<OkR([st EXCEPT !.lo = TLCEval(Divs(32, rs, rt)), !.hi = TLCEval(Mods(32, rs, rt))])>>
     [] mn = "divu"  -> IF IsZero(rt) THEN <<UnspecR("division by zero (UNPREDICTABLE)")>>
-                       ELSE <<OkR([st EXCEPT !.lo = Divu(32, rs, rt), !.hi = Modu(32, rs, rt)])>>
+                       ELSE <<OkR([st EXCEPT !.lo = TLCEval(Divu(32, rs, rt)), !.hi = TLCEval(Modu(32, rs, rt))])>>
     [] mn = "madd"  -> <<OkR(SetAcc(st, Add(64, Acc(st), Prod(TRUE, rs, rt))))>>
     [] mn = "maddu" -> <<OkR(SetAcc(st, Add(64, Acc(st), Prod(FALSE, rs, rt))))>>
     [] mn = "msub"  -> <<OkR(SetAcc(st, Sub(64, Acc(st), Prod(TRUE, rs, rt))))>>
